@@ -68,7 +68,7 @@ def what_of(tr, l, clause):
 def run(ctx):
     q = ctx.quick
     # ---- design level ------------------------------------------------------------------------------------------
-    n, moves = (2, 3) if q else (3, 4)
+    n, moves = (2, 3) if q else (3, 6)
     ctx.constants["MCProducerConsumer"] = {"Modes": POSITIVE, "N": n, "MaxMoves": moves}
     ctx.mc("immutable/MCProducerConsumer", mc_cfg(POSITIVE, n, moves, INVARIANTS), name="MC producer/consumer, positive modes",
            timeout=3000)
@@ -93,7 +93,8 @@ def run(ctx):
     # ---- implementation level ----------------------------------------------------------------------------------
     nseed = 320 if q else 4000
     nweb = 60 if q else 600
-    out = ctx.impl("harness/producer_driver.py", ["--n", nseed, "--web", nweb], input_obj={"cases": cases}, timeout=6000)
+    nmem = 40 if q else 400
+    out = ctx.impl("harness/producer_driver.py", ["--n", nseed, "--web", nweb, "--mem", nmem], input_obj={"cases": cases}, timeout=6000)
     traces = out["traces"]
     stats = collections.Counter()
     for t in traces:
@@ -117,6 +118,8 @@ def run(ctx):
         ctx.count(json.dumps([via, c["kind"], c["off"], c["sized"], c["size"], [short(e) for e in ev]]) if nontrivial else None)
     ctx.notes.append("real reads: %s" % dict(sorted(stats.items())))
     ctx.notes.append("files: %s" % json.dumps(out["files"], sort_keys=True))
+    if out.get("web_without_read"):
+        ctx.notes.append("web requests that never reached read() (not judged): %s" % out["web_without_read"])
     t0 = next(t for t in traces if t["consts"]["file"] == "chkN" and t["consts"]["moves_made"] >= 2)
     ctx.sample({"consts": {k: v for k, v in t0["consts"].items() if k != "content"}, "events": [short(e) for e in t0["events"]]}, limit=2)
     t1 = next(t for t in traces if t["consts"]["file"] == "mdmf" and t["consts"]["moves_made"] >= 2)
@@ -128,9 +131,10 @@ def run(ctx):
                 "after write 1 / write 2 / after write 2) on a LIT, one-segment CHK, multi-segment CHK, SDMF and MDMF file (whole "
                 "file; every third script also on a partial range), %d seeded reads (longer scripts with delays, ranges incl. empty "
                 "and to-EOF, fifo / random delivery, 30%% with server faults: every call fails from the n-th write on, one call "
-                "fails / is lost, one server dead), %d reads through the web gateway (Range requests, send buffer of 1..64 bytes, "
-                "client drains / stalls / disconnects). Non-trivial: the consumer made at least one move or a fault was injected."
-                % (n, moves, len(cases), maxlen, nseed, nweb))
+                "fails / is lost, one server dead), %d reads into the stock MemoryConsumer, %d reads through the web gateway (Range "
+                "requests, send buffer of 1 byte .. unlimited, client drains / stalls / disconnects). Non-trivial: the consumer "
+                "made at least one move or a fault was injected."
+                % (n, moves, len(cases), maxlen, nseed, nmem, nweb))
     ctx.assumptions += ["TLC and the CommunityModules",
                         "harness: virtual reactor single-stepped by harness/producer_driver.py (one delayed call or one remote call "
                         "per turn); SimGrid k=2 n=3 on 4 servers; FileSender.CHUNK_SIZE lowered to 3..64 so that a LIT read takes "
